@@ -164,8 +164,10 @@ class Evaluator:
         if n is None:
             return TOP
         if isinstance(n, ast.Constant):
-            if isinstance(n.value, bool) or n.value is None or isinstance(n.value, str):
-                return TOP if n.value is None or isinstance(n.value, str) else ONE
+            if n.value is None:
+                return ZERO  # "nothing yet": neutral at merges and sums
+            if isinstance(n.value, bool) or isinstance(n.value, str):
+                return TOP if isinstance(n.value, str) else ONE
             if isinstance(n.value, (int, float)):
                 return ZERO if n.value == 0 else LIT
             return TOP
@@ -331,6 +333,8 @@ class Evaluator:
                     continue
                 r = self.same(r, a, n, name) if name in ("min", "max", "maximum", "minimum") else self.merge(r, a)
             return r
+        if name in ("sorted", "list", "reversed", "tuple", "iter") and argv and isinstance(argv[0], tuple):
+            return argv[0]  # a sequence of pairs stays a sequence of pairs
         if name in PURE_LIFT:
             if isinstance(f, ast.Attribute) and not argv and dotted(f.value) not in ("np", "numpy", "math", "copy"):
                 return self.flat(self.e(f.value))
